@@ -37,6 +37,8 @@ def t_scale(x, k=2):
     return x * k
 
 
+_CURRENT_NP = [None]        # NumPy copy of the data of the signal under test (for mixed NumPy/Dask operand lists)
+
 EXTRA_OPS = [
     ("signal_transform abs (dtype changes)", lambda z: True, lambda z: t_abs(z)),
     ("signal_transform abs -> IntensitySignal", catalogue.is_bb, lambda z: t_abs(z, signal_type=pb.IntensitySignal)),
@@ -46,6 +48,12 @@ EXTRA_OPS = [
                                                                                       catalogue._dm_for(z, 1.8))),
     ("pipeline slice+shift+intensity", catalogue.is_bb, lambda z: pb.freq_shift(z[1:11], z.sample_rate / 5).to_intensity()),
     ("np.sqrt(np.abs(z))", lambda z: True, lambda z: np.sqrt(np.abs(z))),
+    ("concatenate [NumPy piece, this signal's tail]", lambda z: True,
+     lambda z: pb.concatenate([type(z).like(z[:5], np.asarray(_CURRENT_NP[0][:5])), z[5:]])),
+    ("concatenate [this signal's head, NumPy piece]", lambda z: True,
+     lambda z: pb.concatenate([z[:5], type(z).like(z[5:], np.asarray(_CURRENT_NP[0][5:]))])),
+    ("ufunc NumPy signal + this signal", lambda z: True,
+     lambda z: type(z).like(z, np.asarray(_CURRENT_NP[0])) + z),
     ("divmod", lambda z: z.dtype.kind == "f", lambda z: np.divmod(z, 0.75)),
 ]
 
@@ -203,6 +211,7 @@ CONTAINER_OPS = {"compute", "persist"}
 
 def layout_case(case, res):
     zn = np_signal(case["signal"])
+    _CURRENT_NP[0] = np.array(np.asarray(zn.data))
     layout = case["layout"]
     time_split = len(layout[0]) > 1
     for name, fn in all_ops(zn):
@@ -276,6 +285,7 @@ def layout_case(case, res):
 def orders_case(case, res):
     """Every task order with <= dev deviations from Dask's own, on the finest sample-axis layout."""
     zn = np_signal(case["signal"])
+    _CURRENT_NP[0] = np.array(np.asarray(zn.data))
     shape = zn.shape
     layout = [[shape[0]]] + [[1] * s for s in shape[1:]]
     for name, fn in all_ops(zn):
